@@ -231,7 +231,8 @@ def setAt {α : Type} : List α → Nat → α → List α
   | _ :: l, 0, a => a :: l
   | b :: l, i + 1, a => b :: setAt l i a
 
-/-- one pass of `collapse_rests`: returns the kept rows and whether anything was merged -/
+/-- one pass of `collapse_rests` (repaired: the quarter duration is summed like the beat and div
+    durations): returns the kept rows and whether anything was merged -/
 def collapsePass (rows : List Row) : List Row × Bool :=
   let n := rows.length
   let step := fun (st : List Row × List Nat × List Nat) (i : Nat) =>
@@ -249,7 +250,7 @@ def collapsePass (rows : List Row) : List Row × Bool :=
           let (rs, filt) := acc
           match rs[i]?, rs[j]? with
           | some ri, some rj =>
-            (setAt rs i { ri with durBeat := ri.durBeat + rj.durBeat, durDiv := ri.durDiv + rj.durDiv },
+            (setAt rs i { ri with durBeat := ri.durBeat + rj.durBeat, durDiv := ri.durDiv + rj.durDiv, durQuarter := ri.durQuarter + rj.durQuarter },
              filt ++ [j])
           | _, _ => acc) (rs, filt)
       (rs', filt', out ++ [i])
